@@ -481,14 +481,29 @@ def run_check(prop, argv=None):
                             break
                     if found or time.time() > budget_t:
                         break
+            # properties whose tie is a compiled program (or another `extra` pass): run that pass again
+            # on fresh inputs and look for a failing monitor clause there
+            passes = 0
+            while found is None and driver_ok and time.time() < budget_t and passes < (2 if tier == 'quick' else 6):
+                passes += 1
+                try:
+                    ex2 = prop.extra({'tier': tier, 'seed': seed, 'rng': rng2, 'known': known_entries})
+                except Exception:
+                    ex2 = None
+                if not ex2:
+                    break
+                for r in ex2.get('failures', []):
+                    found = r
+                    break
         if found is not None:
-            try:
-                small = shrink_json(found['case'], still_fails_factory(found['failed']))
-                rs = evaluate(prop, [small])
-                if rs and rs[0]['failed']:
-                    found = rs[0]
-            except Exception:
-                pass
+            if not found.get('noshrink'):
+                try:
+                    small = shrink_json(found['case'], still_fails_factory(found['failed']))
+                    rs = evaluate(prop, [small])
+                    if rs and rs[0]['failed']:
+                        found = rs[0]
+                except Exception:
+                    pass
             path = write_replay(prop, 'monitor-failure-after-broken-tie', seed, tier, found,
                                 {'broken': broken})
             violations.append(f'VIOLATION property={prop.id} replay={path}')
